@@ -450,3 +450,17 @@ def prune(m: Model, strict=True):
                 if not t[key]:
                     del t[key]
     return m
+
+
+def model_from_snapshot(s) -> Model:
+    """Model of whatever a real graph currently is (used to generate valid
+    follow-up edits for graphs whose derivation is not under test)."""
+    m = Model(s["cls"])
+    m.atoms = {a: dict(at) for a, at in s["atoms"].items()}
+    m.bonds = {frozenset(b): dict(at) for b, at in s["bonds"].items()}
+    m.atom_stereo = dict(s["atom_stereo"])
+    m.bond_stereo = {frozenset(k): d for k, d in s["bond_stereo"].items()}
+    m.atom_changes = {k: dict(ch) for k, ch in s["atom_changes"].items()}
+    m.bond_changes = {frozenset(k): dict(ch)
+                      for k, ch in s["bond_changes"].items()}
+    return m
